@@ -322,6 +322,12 @@ def run(ck):
                 ck.violation(f'inside fit the thread count / env override read {bad_p[:2]} (n_threads={n_threads}) on {desc}', dict(desc), key='inside-probe')
             ck.count('inside-fit probes', len(probes))
         check('predict', lambda: model.predict(Q), [Q])
+        if as_tensor and i % 2 == 0:
+            # queries with missing values (NaN entries) held in the caller's own float32 tensor: whatever the library returns for them, the tensor stays as it is
+            Qn = Q.clone(); Qn[1, 0] = float('nan'); Qn[4, 2] = float('nan')
+            check('predict (query with NaN)', lambda: model.predict(Qn), [Qn])
+            if task.startswith('class'):
+                check('predict_proba (query with NaN)', lambda: model.predict_proba(Qn), [Qn])
         if task.startswith('class'):
             check('predict_proba', lambda: model.predict_proba(Q), [Q])
         elif soft is None:
